@@ -59,11 +59,14 @@ CHECKS["C05"] = dict(
          "C05_precedence_table: the operator table regenerated from the grammar source places all 18+3 operators on the documented "
          "levels. Tie: text -> AST -> value compared with document::expr / Expr::run on the full operator x boundary grid, all "
          "operator-pair nestings, random trees in minimal/blank/redundant-parenthesis renderings, hostile and mutated texts. "
-         "Partial: the character-level round trip 'documented-minimal rendering parses back to the tree' is prototyped "
-         "(notes/proto/CharClimb.v) but not yet instantiated for the real tables; that half rests on correspondence.",
+         "C05_parse / C05_parse_minimal / C05_parse_in_context: for every tree and every printer that parenthesises at least where the "
+         "documented levels require (left-associative binary levels, unary above all), the grammar of the model - peg's precedence "
+         "climbing over the regenerated table, at character level - reads the printed text back as that tree (generic theorem "
+         "Proofs/ClimbProofs.v instantiated for the real tables, identifier and literal parsers in Proofs/ExprRoundTrip.v; fuel of the "
+         "model proved sufficient).",
     note=BASE + " Modelled rather than verified: Expr::run (Model/Eval.v), the peg precedence-climbing algorithm (Model/Climb.v, "
          "Model/Grammar.v); log2 and page are outside the specification.",
-    tech="Coq proof (structural induction) for evaluation + regenerated precedence table + differential correspondence for parsing",
+    tech="Coq proof (structural induction for evaluation; relational big-step semantics + render/parse round trip for the grammar) + regenerated precedence table + differential correspondence",
     ref="3 C05")
 
 CHECKS["C17"] = dict(
@@ -190,12 +193,24 @@ CHECKS["C11"] = dict(
          "modelled: symbolic links, a trailing slash after a file name, non-UTF-8 contents.",
     tech="Coq proof (path/order lemmas, file-layer independence by mutual induction over block trees, reuse of the C08 refinement) + "
          "differential correspondence on real directory trees + paste oracle", ref="3 C11")
+CHECKS["C09"] = dict(
+    text="Theorems (Props/C09.v): C09_substitute - for a call with 1..10 arguments, the line the expansion parses is the body line with "
+         "EVERY @i replaced at once by the text of argument i (the code's sequential str::replace cannot re-substitute or mix parameters; a "
+         "reference beyond the arguments stays and is a syntax error), for every body line made of '@'-free text and @0..@9; "
+         "C09_argument_text / C09_argument_alone / C09_argument_no_at - the text an expression argument is turned into (Display: every "
+         "compound operand parenthesised) has no '@' and, in any non-gluing context, is read back by the grammar as exactly the expression "
+         "the caller wrote, for all operators, levels and nesting depths (instance of the generic climbing-parser round trip); C09_case "
+         "(calls are matched in lower case) and C09_undefined (error naming the call's line). PARTIAL: register and index-form arguments, "
+         "the splice of expanded segments into the output (pass 0) and nested calls rest on the correspondence and on the oracle search "
+         "(real build of the macro program = real build of the hand-expanded program)." + PROG,
+    note=BASE + " Search: macros with up to ten parameters, bodies with instructions, data, conditionals on parameters, nested calls and "
+         "segment switches; arguments = registers, index forms, random expression trees; calls before the definition and in mixed case.",
+    tech="Coq proof (token-level substitution lemma; parser round trip instantiated for Display) + expansion oracle + differential correspondence",
+    ref="3 C09")
 
 NOT_APPLICABLE = {}
 IN_PROGRESS = ("machinery built and green on the current tree (./check %s: model-vs-implementation correspondence + oracle search + "
                "kernel-checked examples); not claimed until its unbounded theorem is in Props/%s.v")
-for _p in ("C09",):
-    NOT_APPLICABLE[_p] = IN_PROGRESS % (_p, _p)
 PENDING = ("claimed in DESIGN.md, machinery not built yet in this commit; listed here so that nothing unbuilt is claimed "
            "(technique applies - see DESIGN.md section 3)")
 
